@@ -80,6 +80,11 @@ def main(argv):
                 for noids in ([1, 2, 4, 6, 9, 12, 20, 60, 150] if thorough else [1, 4, 6, 9, 20, 150]):
                     oids = [ber.oid_text([1, 3, 6, 1, 2, 1, 2, 2, 1, 10, i]) for i in range(noids)]
                     steps.append({"op": "get_many", "args": [oids], "replies": [[{"vbs": ""}]]})
+                # a Report naming ANOTHER engine (right user and message id) arrives instead of a reply: the call fails or times
+                # out, and whatever the session sends afterwards still carries a MAC under the key localized to the engine
+                # id that message names
+                steps.append({"op": "get", "args": ["1.3.6.1.2.1.1.1.0"], "replies": [[{"pdu_tag": 0xA8, "engine": "80001f8880" + "ee" * 6, "mac": "absent", "encrypt": "no", "flags": 0}]]})
+                steps.append({"op": "get_many", "args": [["1.3.6.1.2.1.1.1.0", "1.3.6.1.2.1.1.2.0"]], "replies": [[{"vbs": ""}]]})
                 steps.append({"op": "getnext", "args": ["1.3.6.1.2.1"], "replies": [[{"vbs": ber.varbind(ber.enc_oid([1, 3, 6, 1, 2, 1, 1]), ber.enc_value("int", 1)).hex()}],
                                                                                       [{"vbs": ber.varbind(ber.enc_oid([1, 3, 7]), ber.enc_value("int", 1)).hex()}]], "cap": 5})
                 steps.append({"op": "getbulk", "args": ["1.3.6.1.2.1", 25], "replies": [[{"vbs": ber.varbind(ber.enc_oid([1, 3, 7]), ber.enc_value("int", 1)).hex()}]], "cap": 5})
